@@ -2,7 +2,8 @@
    not only the file-level record: decode, then replay the add_quadratic_back calls of the loader. *)
 From Coq Require Import List NArith Arith Bool Lia.
 From Dimod Require Import Gen.Gen_Codec Model.Codec Model.Rebuild Proofs.CodecBase Proofs.CodecFrame Proofs.CodecBqm
-  Proofs.CodecBqmTop Proofs.CodecLabel Proofs.CodecJson Proofs.CodecBqmFull Proofs.CodecQm Proofs.RebuildFacts.
+  Proofs.CodecBqmTop Proofs.CodecLabel Proofs.CodecJson Proofs.CodecBqmFull Proofs.CodecQm Proofs.RebuildFacts Proofs.RebuildUpsert
+  Gen.Gen_Loaders Model.Loaders.
 Import ListNotations.
 
 Definition nb_nat (nb : list (N * bytes)) : list (nat * bytes) := map (fun e => (N.to_nat (fst e), snd e)) nb.
@@ -16,26 +17,40 @@ Qed.
 Lemma map_nb_nat_N : forall a, map nb_nat (map nb_N a) = a.
 Proof. induction a as [|x r IH]; cbn; [reflexivity|]. now rewrite nb_nat_N, IH. Qed.
 
+(* no variable interacts with itself (BINARY / SPIN: every BQM) *)
+Definition NoSelf {B} (a : list (list (nat * B))) : Prop := forall x, x < length a -> get x (nth x a []) = None.
+
+(* the loaders as the source has them (primitive and cut taken from Gen_Loaders) restore the adjacency *)
+Theorem qm_load_adjacency_restores : forall {B} (add : B -> B -> B) (add0 : B -> B) (a : list (list (nat * B))),
+  AdjWF a -> qm_load_adjacency add add0 (lowers a) = a.
+Proof. intros B add add0 a W. exact (rebuild_lowers a W). Qed.
+
+Theorem bqm_load_adjacency_restores : forall {B} (add : B -> B -> B) (a : list (list (nat * B))),
+  AdjWF a -> NoSelf a -> bqm_load_adjacency add (fun b => b) a = a.
+Proof. intros B add a W NS. exact (rebuild_upsert_lowers add a W NS). Qed.
+
 (* QM: to_file stores the lower triangles of the adjacency a; from_file decodes them and replays
    add_quadratic_back in file order; the result is a itself *)
-Theorem qm_load_restores_adjacency : forall f (a : list (list (nat * bytes))),
+Theorem qm_load_restores_adjacency : forall (add : bytes -> bytes -> bytes) (add0 : bytes -> bytes) f
+  (a : list (list (nat * bytes))),
   QmWF f -> AdjWF a -> qf_neig f = map nb_N (lowers a) ->
-  exists g, run qm_decode (qm_encode f) = Ok g /\ rebuild (map nb_nat (qf_neig g)) = a.
+  exists g, run qm_decode (qm_encode f) = Ok g /\ qm_load_adjacency add add0 (map nb_nat (qf_neig g)) = a.
 Proof.
-  intros f a W Wa E. exists f. split; [now apply qm_decode_encode|].
-  rewrite E, map_nb_nat_N. now apply rebuild_lowers.
+  intros add add0 f a W Wa E. exists f. split; [now apply qm_decode_encode|].
+  rewrite E, map_nb_nat_N. now apply qm_load_adjacency_restores.
 Qed.
 
-(* BQM: to_file stores the full neighbourhoods; from_file cuts each at searchsorted(.., v, 'right') - the
-   entries with index <= v - and adds them with add_quadratic *)
-Theorem bqm_load_restores_adjacency : forall f (a : list (list (nat * bytes))),
-  BqmWFL f -> AdjWF a -> bf_adj f = map nb_N a ->
-  exists g, run bqm_decode (bqm_encode f) = Ok g /\ rebuild (lowers (map nb_nat (bf_adj g))) = a.
+(* BQM: to_file stores the full neighbourhoods; from_file cuts each at searchsorted(.., v, 'right') and adds the
+   entries with add_quadratic (lower_bound + insert-if-absent + `+=`): every such call appends (RebuildUpsert.v).
+   `0 + bias` is taken to be `bias` (exact for every float except -0.0, which comes back as +0.0). *)
+Theorem bqm_load_restores_adjacency : forall (add : bytes -> bytes -> bytes) f (a : list (list (nat * bytes))),
+  BqmWFL f -> AdjWF a -> NoSelf a -> bf_adj f = map nb_N a ->
+  exists g, run bqm_decode (bqm_encode f) = Ok g
+            /\ bqm_load_adjacency add (fun b => b) (map nb_nat (bf_adj g)) = a.
 Proof.
-  intros f a W Wa E. exists f. split; [now apply bqm_decode_encode_full|].
-  rewrite E, map_nb_nat_N. now apply rebuild_lowers.
+  intros add f a W Wa NS E. exists f. split; [now apply bqm_decode_encode_full|].
+  rewrite E, map_nb_nat_N. now apply bqm_load_adjacency_restores.
 Qed.
-
 (* add_quadratic (lower_bound, insert if absent, +=) on a neighbourhood whose keys are all smaller
    appends: this is why the BQM loader may be replayed with add_quadratic_back *)
 Lemma upsert_at_end : forall {B} (add : B -> B -> B) (add0 : B -> B) k b (l : list (nat * B)),
